@@ -177,6 +177,18 @@ def isAlias (s : Sess) (c : Nat) : Bool :=
   | some ⟨.alias, _⟩ => true
   | _ => false
 
+/-- `update_account_half`: the specification of `StateDB.Update` evaluated next to the transcribed function -/
+def updateCheck (s : Sess) : String :=
+  match s.db.update with
+  | none => ""
+  | some db' =>
+    let okC := (List.range s.na).all fun c => db'.cache.get c == (s.db.cache.get c).map Storage.flushed
+    let okV := (List.range s.na).all fun a =>
+      db'.view a == (match s.db.cache.get a with
+        | some st => recAfter (s.db.view a) st
+        | none => s.db.view a) && db'.trie.get a == db'.view a
+    if okC && okV then "" else " UPDATE-SPEC-DIVERGES"
+
 def answer (s : Sess) (head : String) : Sess × String :=
   if s.undef then (s, "undef") else (s, s!"{head}{mirrorCheck s} | {readsLine s}")
 
@@ -307,7 +319,8 @@ def c12Step (s : Sess) (line : String) : Sess × String :=
     | "update", [] =>
       -- the block so far IS its surviving operations (`reverted_never_happened`)
       let chk := if s.mir.st.isSome && runPlain s.mir.base s.mir.sv.1 != some s.db then " SURVIVORS-DIVERGE" else ""
-      orUndef s (s.db.update.map fun db => { (dropHeld s) with db := db, mir := Mirror.reset db s.na s.nk }) s!"ok{chk}"
+      orUndef s (s.db.update.map fun db => { (dropHeld s) with db := db, mir := Mirror.reset db s.na s.nk })
+        s!"ok{chk}{updateCheck s}"
     | "commit", [] =>
       -- `commitBlock` on the block and on its surviving operations (`persisted_ignores_reverted`)
       let r := s.db.update.bind SDB.commit
